@@ -575,6 +575,25 @@ def run(tier, seed):
         mq, mp = r.vec(), r.vec()
         if not (common.vbits(mq, qq) and common.vbits(mp, pp)):
             sr.disagree(stim, {"q": mq, "p": mp}, {"q": qq.ravel().tolist(), "p": pp.ravel().tolist()}, "corrector differs from reflect1")
+        # the property's own words, on the implementation: a coordinate that violates a bound (by no more than the box is wide) is mirrored
+        # about that bound and exactly its momentum component changes sign; every other coordinate and component is untouched
+        eq, ep = q.copy(), p.copy()
+        single = True
+        for i in range(len(q)):
+            lo = None if L is None else L[i, 0]
+            hi = None if U is None else U[i, 0]
+            if lo is not None and q[i, 0] < lo:
+                eq[i, 0] = 2 * lo - q[i, 0]
+                ep[i, 0] = -p[i, 0]
+                single = single and (hi is None or eq[i, 0] <= hi)
+            elif hi is not None and q[i, 0] > hi:
+                eq[i, 0] = 2 * hi - q[i, 0]
+                ep[i, 0] = -p[i, 0]
+                single = single and (lo is None or eq[i, 0] >= lo)
+        if single and np.all(np.isfinite(q)) and not (np.allclose(qq, eq, rtol=0, atol=1e-12 * (1 + np.max(np.abs(eq)))) and np.array_equal(pp, ep)):
+            findings.append(Finding("C01", f"corrector of a {flavour} target: a violating coordinate is not mirrored about its bound with exactly its momentum component negated",
+                                    {"kind": "corrector", "flavour": flavour}, {"oracle": "reflect", "stimulus": stim, "observed": {"q": qq.ravel().tolist(), "p": pp.ravel().tolist()},
+                                                                                  "expected": {"q": eq.ravel().tolist(), "p": ep.ravel().tolist()}}))
     if sr.samples == [] and metas:
         f0 = metas[0]
         sr.samples.append({"flavour": f0[0], "q": f0[3].ravel().tolist(), "after": f0[5].ravel().tolist()})
